@@ -5,6 +5,9 @@ From Cfg Require Import Model.MapHub.
 Import ListNotations.
 Open Scope N_scope.
 
+(* split syntactic conjunctions only (never unfolds definitions) *)
+Ltac splits := repeat match goal with |- _ /\ _ => split end.
+
 Lemma skipn_skipn' : forall {A} (x y : nat) (l : list A), skipn x (skipn y l) = skipn (y + x) l.
 Proof.
   intros A x y. revert x. induction y; intros x l; simpl; auto.
